@@ -356,7 +356,9 @@ class Automaton:
         self.facts = facts
         self.fn = fn
         summaries = se_summaries(facts)
-        self.interp = OpInterp(facts, fn, summaries)
+        # evaluated on the view with private same-type helpers inlined: extracting / inlining a helper does not change the automaton
+        self.ifn = facts.inl(fn, mode='self')
+        self.interp = OpInterp(facts, self.ifn, summaries)
         init, self.ctor_sites = initial_self_state(facts, fn.impl_adt, summaries)
         init = dict(init)
         # `setup` runs between construction and the first `next`: forget what it may write
@@ -424,4 +426,4 @@ def operator_nexts(facts):
 
 
 def automaton(facts, fn):
-    return _memo(facts, 'aut:' + fn.path, lambda: Automaton(facts, fn))
+    return _memo(facts, 'aut:%d' % id(fn), lambda: (fn, Automaton(facts, fn)))[1]
